@@ -94,14 +94,16 @@ def parse_name(rel):
         base = base[:-3]
     fields = {"force_down": "force_down" in base or "forcedown" in base}
     toks = [t for t in base.replace("force_down", "").split("_") if t]
+    seen = {}
     for t in toks:
         m = re.fullmatch(r"(rb|lb|tb|lt|w|l|r)(-?\d+)", t)
         if m:
-            if m.group(1) in fields:
-                fields["dup:" + m.group(1)] = True
-            fields[m.group(1)] = int(m.group(2))
-        elif re.fullmatch(r"-?\d+", t) and "seed" not in fields:
-            fields["seed"] = int(t)
+            seen.setdefault(m.group(1), []).append(int(m.group(2)))
+        elif re.fullmatch(r"-?\d+", t):
+            seen.setdefault("seed", []).append(int(t))
+    for k, vals in seen.items():
+        # a field stated twice with different values states nothing
+        fields[k] = vals[0] if len(set(vals)) == 1 else "ambiguous%r" % (vals,)
     return fields
 
 
